@@ -28,7 +28,7 @@ if git -C /repo worktree add -q --detach "$HW" HEAD && (cd "$HW" && git apply "$
 echo "--- checks against the change (scratch copy of /verif, VERIF_REPO=$WT)"
 SV=/tmp/seed/$ID.verif
 mkdir -p "$SV"
-rsync -a --delete --exclude .git --exclude .bin --exclude .overlay --exclude .altmod --exclude evidence --exclude replays /verif/ "$SV/"
+rsync -a --delete --exclude .git --exclude .bin --exclude .overlay --exclude .altmod --exclude evidence --exclude replays "${VERIF_SRC:-/verif}/" "$SV/"
 unset GOFLAGS
 for c in "$@"; do
   out=$(cd "$SV" && VERIF_REPO=$WT VERIF_NO_EVIDENCE=1 ./run "$c" ${TIER:-quick} 2>&1); rc=$?
